@@ -1,27 +1,75 @@
 (* Properties/C06.v — LZHUF compression is lossless for every input and every chunking.
 
-   The full statement is kept visible as [C06_roundtrip_statement] (a Prop, not asserted).
-   Proved here, for ALL inputs: the compressed bytes depend only on the input, not on the
-   partition into Write calls (C06_write_chunking); the stream layout (C06_layout).  The
-   round trip itself is decided on every run by the correspondence check (model = code on
-   generated inputs, and decode(encode x) = x on model and code) and is not yet a theorem:
-   see DESIGN.md section 6 C06 for the layered proof plan (Huffman invariant, bit layer,
-   window/search-tree invariant). *)
-From Verif Require Import Base.Bytes Lzhuf.Huff Lzhuf.Enc Lzhuf.Crc Lzhuf.Dec Lzhuf.LzP Lzhuf.DecP.
+   THEOREMS, for ALL inputs (any bytes, any length below 2^31), with and without the CRC
+   header: the full statement (C06_lossless: any partition of the input into Write calls, any
+   sequence of positive Read buffer sizes; C06_roundtrip: the same for a single Write and a
+   fixed buffer size, in the form the statement was first written down); the compressed bytes
+   depend only on the input (C06_write_chunking); the stream layout (C06_layout).
+
+   The proof is layered (Lzhuf/*.v, DESIGN.md section 11.10): the adaptive Huffman tree keeps
+   an invariant under update and reconst (HuffP), under which every symbol's code decodes to
+   it and is at most 21 bits long (HuffWalkP, HuffDepthP); putCode/encodeChar/encodePosition
+   append exactly those bits (BitsWP) and the bit reader consumes exactly them (BitsRP); the
+   search trees only ever propose registered window positions (SearchP); whatever they find,
+   the writer emits the bits of a token sequence that expands to its input (WriterP); the
+   reader decodes the bits of any well-formed token sequence to its expansion, for every
+   Read buffer size (TokDecP, ReadSeqP). *)
+From Verif Require Import Base.Bytes Base.Arr Lzhuf.Huff Lzhuf.HuffInv Lzhuf.HuffInvP Lzhuf.HuffP Lzhuf.Enc
+  Lzhuf.Crc Lzhuf.Dec Lzhuf.LzP Lzhuf.DecP Lzhuf.Bits Lzhuf.Tokens Lzhuf.Search Lzhuf.SearchP
+  Lzhuf.ReadSeq Lzhuf.TokDecP Lzhuf.LzhufP gen.Tables.
 Open Scope N_scope.
 
-(* reading a whole stream through buffers of size bs *)
-Definition read_all (crc : bool) (s : bytes) (bs : nat) (fuel : nat) : option (bytes * rstatus * rerr) :=
-  match new_reader crc [s] with
-  | None => None
-  | Some d => let '(out, st, d') := read_all_loop fuel d bs [] in Some (out, st, close_reader d')
-  end.
+(* THE FULL STATEMENT.  The input is handed to Write in any pieces; the stream is read back
+   with any sequence of positive buffer sizes (more calls than bytes, so that the end is
+   reached: every call that returns nil delivers at least one byte): the bytes read are the
+   input, the last status is io.EOF, Close returns nil. *)
+Theorem C06_lossless : forall (crc : bool) (chunks : list bytes) (sizes : list nat),
+  let x := concat chunks in
+  Forall (fun b => b < 256) x -> (Z.of_nat (length x) < 2147483648)%Z ->
+  Forall (fun n => (0 < n)%nat) sizes -> (length x < length sizes)%nat ->
+  exists d d',
+    new_reader crc [close_writer crc (fold_left write chunks writer_init)] = Some d /\
+    read_seq d sizes [] = (x, REof, d') /\ close_reader d' = ErrNone.
+Proof. exact lossless. Qed.
+Print Assumptions C06_lossless.
 
-(* FULL STATEMENT (not asserted): every input, every buffer size. *)
-Definition C06_roundtrip_statement : Prop :=
-  forall (crc : bool) (x : bytes) (bs : nat),
-    Forall (fun b => b < 256) x -> (Z.of_nat (length x) < 2147483648)%Z -> (0 < bs)%nat ->
-    read_all crc (compress crc x) bs (S (S (length x))) = Some (x, REof, ErrNone).
+(* the same for one Write and a fixed buffer size, through the io.Copy-style loop *)
+Theorem C06_roundtrip : forall (crc : bool) (x : bytes) (bs : nat),
+  Forall (fun b => b < 256) x -> (Z.of_nat (length x) < 2147483648)%Z -> (0 < bs)%nat ->
+  read_all crc (compress crc x) bs (S (S (length x))) = Some (x, REof, ErrNone).
+Proof. exact roundtrip. Qed.
+Print Assumptions C06_roundtrip.
+
+(* the layers, as far as they are statements of their own: every tree the codec reaches
+   satisfies the invariant; in such a tree every symbol's code decodes to the symbol and has
+   1..21 bits *)
+Theorem C06_tree_invariant : Inv huff_init /\
+  forall h c, Inv h -> c < lz_NumChar -> Inv (update h c).
+Proof. split; [exact huff_init_inv|exact update_inv]. Qed.
+Print Assumptions C06_tree_invariant.
+Theorem C06_codes : forall cs c rest,
+  Forall (fun c => c < lz_NumChar) cs -> c < lz_NumChar ->
+  let h := updates huff_init cs in
+  decode_walk (S natT) h (aget (son h) lz_R) (code_of h c ++ rest) = (c + lz_T, rest)
+  /\ (1 <= length (code_of h c) <= 21)%nat.
+Proof. exact reachable_codes. Qed.
+Print Assumptions C06_codes.
+(* the search trees: InsertNode/DeleteNode keep the registry of window positions exact *)
+Theorem C06_search_trees : SearchSpec TreeOK.
+Proof. exact search_spec. Qed.
+Print Assumptions C06_search_trees.
+(* the compressor's output is a header followed by the bits of tokens expanding to the input *)
+Theorem C06_format : forall (crc : bool) x,
+  Forall (fun b => b < 256) x -> (Z.of_nat (length x) < 2147483648)%Z ->
+  exists toks body pad,
+    Forall tok_ok toks /\ expand win_init toks = x /\
+    Forall (fun b => b < 256) body /\
+    bytes_bits body = toks_bits huff_init toks ++ pad /\ (length pad < 8)%nat /\
+    compress crc x =
+      (if crc then le16 (crc_impl (le32 (N.of_nat (length x)) ++ body)) else [])
+      ++ le32 (N.of_nat (length x)) ++ body.
+Proof. exact compress_format. Qed.
+Print Assumptions C06_format.
 
 (* Write chunking: any sequence of Write calls yields the bytes of a single Write. *)
 Theorem C06_write_chunking : forall crc (chunks : list bytes),
